@@ -346,7 +346,7 @@ def e2e_no_tree(ctx):
     import shutil
     import tempfile
     from sqlfluff.core import FluffConfig, Linter
-    n = 70 if ctx.tier == "quick" else 900
+    n = 70 if ctx.tier == "quick" else 500
     ncli = 4 if ctx.tier == "quick" else 40
     tmp = tempfile.mkdtemp(prefix="c20_", dir=os.environ.get("TMPDIR") or "/var/tmp")
     linters = {}
